@@ -72,14 +72,52 @@ func c10Wire(kind int, hbh uint32) []byte {
 		b[11] = 4
 		return b
 	case pReqA:
-		return peer.Msg(0xC0, 271, 3, hbh, hbh, sess)
+		return c10App(true, 271, 3, hbh, sess)
 	case pReqB:
-		return peer.Msg(0xC0, 272, 4, hbh, hbh, sess)
+		return c10App(true, 272, 4, hbh, sess)
 	case pAns:
-		return peer.Msg(0x40, 272, 4, hbh, hbh, sess, peer.U32(peer.ResultCode, 2001))
+		return c10App(false, 272, 4, hbh, sess, peer.U32(peer.ResultCode, 2001))
 	default:
-		return peer.Msg(0xC0, 275, 0, hbh, hbh, sess)
+		return c10App(true, 275, 0, hbh, sess)
 	}
+}
+
+// c10Dress is set per case (from the case index): together with the identifier it decides
+// which optional AVPs and header flags an application message carries.
+var c10Dress int
+
+// c10App builds an application message.  What it carries besides the Session-Id rotates:
+// nothing; the adjacent peer's own Origin-Host; the Origin-Host of a node behind the peer
+// (what every relay or proxy forwards, RFC 6733 6.3) with Route-Record; routing AVPs and a
+// Proxy-Info group; undefined and vendor-specific AVPs; the receiver's own identity.  The
+// P, T and E header bits rotate too.  None of this may influence whether the handler runs.
+func c10App(request bool, code, app, hbh uint32, avps ...*refcodec.Node) []byte {
+	d := int(hbh) + c10Dress
+	id := func(code uint32, v string) *refcodec.Node { return peer.Str(code, refcodec.DiameterIdentity, v) }
+	switch d % 7 {
+	case 1:
+		avps = append(avps, id(peer.OriginHost, "peer.example"), id(peer.OriginRealm, "example"))
+	case 2:
+		avps = append(avps, id(peer.OriginHost, "client7.far.example"), id(peer.OriginRealm, "far.example"), id(282, "relay1.example"))
+	case 3:
+		avps = append(avps, id(peer.OriginHost, "mme.visited.example"), id(peer.OriginRealm, "visited.example"), id(293, "srv.local"), id(283, "realm.local"),
+			peer.Group(284, id(280, "proxy.example"), peer.Str(33, refcodec.OctetString, "state")))
+	case 4:
+		u := &refcodec.Node{Code: 0x00E00123, Flags: 0, Kind: refcodec.Unknown, B: []byte{1, 2, 3, 4, 5}}
+		v := &refcodec.Node{Code: 0x00E00124, Flags: 0x80, Vendor: 4242, Kind: refcodec.Unknown, B: []byte("vendor")}
+		avps = append([]*refcodec.Node{u}, append(avps, v)...)
+	case 5:
+		avps = append(avps, id(peer.OriginHost, "srv.example"), id(peer.OriginRealm, "example"))
+	case 6:
+		avps = append(avps, id(peer.OriginHost, "srv.local"), id(peer.OriginRealm, "realm.local"))
+	}
+	var flags uint8
+	if request {
+		flags = []uint8{0xC0, 0x80, 0xD0, 0x90}[(d/7)%4]
+	} else {
+		flags = []uint8{0x40, 0x00, 0x60, 0x20}[(d/7)%4]
+	}
+	return peer.Msg(flags, code, app, hbh, hbh, avps...)
 }
 
 // cutAVP removes the first top-level AVP with the given code from a message image.
@@ -472,6 +510,7 @@ func TestC10(t *testing.T) {
 		seq := seqs[c.I/2]
 		one := c.I%2 == 1
 		c.Class("server/len=%d/first=%s/one-segment=%v", len(seq), pNames[seq[0]], one)
+		c10Dress = c.I/4 + c.I%4*7
 		run(c, func() { runC10Server(c, ctx, seq, one, (c.I/2)%2 == 0) })
 	})
 	rec.Exhaustive("server-exhaustive")
@@ -485,6 +524,7 @@ func TestC10(t *testing.T) {
 			}
 		}
 		c.Class("server-random/len=%d", n/5*5)
+		c10Dress = c.I/4 + c.I%4*7
 		run(c, func() { runC10Server(c, ctx, seq, c.R.IntN(2) == 0, c.R.IntN(2) == 0) })
 	})
 	// client role: all sequences up to length 4 with at most one CEA
@@ -512,6 +552,7 @@ func TestC10(t *testing.T) {
 	rec.Suite("client-exhaustive", len(cseqs), func(c *ev.Case) {
 		seq := cseqs[c.I]
 		c.Class("client/len=%d/first=%s", len(seq), qNames[seq[0]])
+		c10Dress = c.I/4 + c.I%4*7
 		run(c, func() { runC10Client(c, ctx, seq, c.I%2 == 0) })
 	})
 	rec.Exhaustive("client-exhaustive")
